@@ -27,6 +27,7 @@ import (
 	bn254fr "github.com/consensys/gnark-crypto/ecc/bn254/fr"
 	bn254fft "github.com/consensys/gnark-crypto/ecc/bn254/fr/fft"
 	bn254mimc "github.com/consensys/gnark-crypto/ecc/bn254/fr/mimc"
+	bn254poly "github.com/consensys/gnark-crypto/ecc/bn254/fr/polynomial"
 	bn254p2 "github.com/consensys/gnark-crypto/ecc/bn254/fr/poseidon2"
 	bn254kzg "github.com/consensys/gnark-crypto/ecc/bn254/kzg"
 	bn254eddsa "github.com/consensys/gnark-crypto/ecc/bn254/twistededwards/eddsa"
@@ -260,6 +261,38 @@ func bn254Subjects(r *Rng) []*subject {
 		}
 		return out
 	}})
+	// polynomial helpers with a lazily built, cached Lagrange basis (global state shared by all calls)
+	for _, vals := range [][]uint64{{1, 5, 1, 9}, {7, 1, 3}, {1, 1, 1, 1, 1, 1}, {2, 3, 5, 7, 11}} {
+		v := make([]bn254fr.Element, len(vals))
+		for i := range v {
+			v[i].SetUint64(vals[i])
+		}
+		name := fmt.Sprintf("bn254.polynomial.InterpolateOnRange%v", vals)
+		subs = append(subs, &subject{name: name, shared: []any{v}, run: func(int) any {
+			p := bn254poly.InterpolateOnRange(v)
+			return []bn254fr.Element(p)
+		}})
+	}
+	{
+		a := bn254poly.Polynomial(append([]bn254fr.Element{}, poly[:9]...))
+		b := bn254poly.Polynomial(append([]bn254fr.Element{}, poly[9:15]...))
+		var one, c bn254fr.Element
+		one.SetOne()
+		c.SetUint64(3)
+		subs = append(subs, &subject{name: "bn254.polynomial.ops", shared: []any{[]bn254fr.Element(a), []bn254fr.Element(b), &one, &c}, run: func(int) any {
+			var s1, s2, s3, d bn254poly.Polynomial
+			s1.Scale(&one, a) // scaling by one must still produce an independent polynomial
+			s1.ScaleInPlace(&c)
+			s2.Scale(&c, b)
+			s3.Add(a, b)
+			s3.AddConstantInPlace(&c)
+			d.Sub(b, a)
+			cl := a.Clone()
+			cl.SubConstantInPlace(&c)
+			ev := a.Eval(&c)
+			return []any{[]bn254fr.Element(s1), []bn254fr.Element(s2), []bn254fr.Element(s3), []bn254fr.Element(d), []bn254fr.Element(cl), &ev}
+		}})
+	}
 	// element functions going through the big.Int scratch pool
 	var x bn254fr.Element
 	x.SetUint64(123456789)
